@@ -52,7 +52,7 @@ TOLERANCES = {
                  "hence one more decade for 'net_wide'; >= 100x slack everywhere.  A rate mis-scaled by a "
                  "stoichiometric factor moves yout by O(S).",
     "admissible": "yout >= -1e-7*S and yout <= min_e(supply_e/atoms_e) + 1e-7*S (3 decades above atol; calibration, "
-                  "labels 'outside<=1e-k': largest excursion in 16 000 systems <= 1e-10*S)",
+                  "labels 'outside<=1e-k': largest excursion in 70 000 systems <= 1e-9*S, 9 above 1e-10*S)",
     "xout": "|xout - tout| <= 1e-12*max(1,|tout|)",
     "euler": "at (t0, c0): 0 < h <= 1 and every component of c0 + h*f_exact(c0) in [-eps, bound + eps*W]; at the "
              "middle output time with state max(yout, 0): h <= 1 and, if h > 0, the same containment; "
